@@ -576,11 +576,11 @@ def parse_process_injection_transform_steps(data: bytes) -> list:
     d = p.read(4)
     if d:
         val = p.read(u32be(d))
-        steps.append(("append", val))
+        steps.append(("prepend", val))
     d = p.read(4)
     if d:
         val = p.read(u32be(d))
-        steps.append(("prepend", val))
+        steps.append(("append", val))
     return steps
 
 
